@@ -40,4 +40,270 @@ theorem fillCells_getD (cfg : Cfg) (ascii : Bool) (q : Sym) (last : Nat) (d : En
     · simp only [hle, if_false]
       rw [if_neg (by omega)]
 
+
+theorem stepColumn_getD_zero (cfg : Cfg) (ascii : Bool) (refE : List Sym) (q : Sym) (last : Nat) (col : List Entry)
+    (d : Entry) (hlen : col.length = refE.length + 1) :
+    (stepColumn cfg ascii refE q last col).getD 0 d = stepCell0 cfg (col.getD 0 d) := by
+  match col, hlen with
+  | c0 :: rest, _ => simp [stepColumn, stepCell0]
+
+theorem stepColumn_getD_succ (cfg : Cfg) (ascii : Bool) (refE : List Sym) (q : Sym) (last : Nat) (col : List Entry)
+    (d : Entry) (hlen : col.length = refE.length + 1) (i : Nat) (hi : i < refE.length) :
+    (stepColumn cfg ascii refE q last col).getD (i+1) d =
+      if i + 1 ≤ last then
+        cell cfg (charsEqual ascii (refE.getD i 0) q) (col.getD i d) (col.getD (i+1) d)
+          ((stepColumn cfg ascii refE q last col).getD i d)
+      else col.getD (i+1) d := by
+  match col, hlen with
+  | c0 :: rest, hlen =>
+    have hlen' : rest.length = refE.length := by simpa using hlen
+    have hf := fillCells_getD cfg ascii q last d rest refE 0 c0 (stepCell0 cfg c0) (by omega) i (by omega)
+    simp only [Nat.zero_add] at hf
+    show ((_ :: _ : List Entry)).getD (i+1) d = _
+    rw [List.getD_cons_succ]
+    have e : (if cfg.startInQuery then (⟨c0.cost, c0.score, c0.origin + 1⟩ : Entry)
+        else ⟨c0.cost + cfg.indelCost, c0.score + insertionScore, c0.origin⟩) = stepCell0 cfg c0 := rfl
+    simp only [e]
+    rw [hf]
+    have e2 : 1 + i = i + 1 := by omega
+    rw [e2]
+    split
+    · congr 1
+      · cases i with
+        | zero => simp
+        | succ i => simp
+      · cases i with
+        | zero => simp [stepColumn, stepCell0]
+        | succ i => simp [stepColumn, stepCell0]
+    · rfl
+
+/-- where the new cell's origin comes from -/
+theorem cell_origin_cases (cfg : Cfg) (b : Bool) (diag cur prev : Entry) :
+    (cell cfg b diag cur prev).origin = diag.origin ∨ (cell cfg b diag cur prev).origin = prev.origin ∨
+    ((cell cfg b diag cur prev).origin = cur.origin ∧ cur.cost + cfg.indelCost < diag.cost + 1) := by
+  cases b
+  · unfold cell
+    simp only [Bool.false_eq_true, if_false]
+    split
+    · exact .inl rfl
+    · next h =>
+      simp only [Bool.and_eq_true, decide_eq_true_eq] at h
+      split
+      · exact .inr (.inl rfl)
+      · exact .inr (.inr ⟨rfl, by omega⟩)
+  · unfold cell
+    simp
+
+/-- on equal characters the cell is the diagonal neighbour plus a match -/
+theorem cell_origin_match (cfg : Cfg) (diag cur prev : Entry) :
+    (cell cfg true diag cur prev).origin = diag.origin := by
+  unfold cell; simp
+
+
+/-! ### origins on or above the diagonal of an error-free copy starting at query position `p` -/
+
+/-- `ref` occurs without error at query position `p` -/
+def CopyAt (ctx : Ctx) (p : Nat) : Prop := ∀ t, t < ctx.ref.length → delta ctx t (p + t) = 0
+
+theorem delta_zero {ctx : Ctx} {i j : Nat} (h : delta ctx i j = 0) :
+    charsEqual ctx.ascii (ctx.ref.getD i 0) (ctx.query.getD j 0) = true := by
+  unfold delta Ctx.eq at h
+  split at h
+  · assumption
+  · omega
+
+theorem stepColumn_Z {ctx : Ctx} {p : Nat} (hX : CopyAt ctx p) (hsq : ctx.cfg.startInQuery = true)
+    {j last lf : Nat} {col : List Entry} (hlen : col.length = ctx.ref.length + 1) (hj : j < ctx.query.length)
+    (hlast : last ≤ ctx.ref.length) (hlf : j = 0 ∨ last ≤ lf + 1)
+    (hZ : ∀ i, i ≤ ctx.ref.length → (j = 0 ∨ i ≤ lf) → p + i ≤ j → (p : Int) ≤ (col.getD i default).origin)
+    (h0 : (col.getD 0 default).origin = (j : Int))
+    (hdiag : j ≠ 0 → lf < last → (col.getD (last - 1) default).cost ≤ ctx.cfg.k)
+    (hcur : j ≠ 0 → lf < last → ctx.cfg.k < (col.getD last default).cost) :
+    ((stepColumn ctx.cfg ctx.ascii ctx.ref ctx.query[j] last col).getD 0 default).origin = ((j + 1 : Nat) : Int) ∧
+    ∀ i, i ≤ last → p + i ≤ j + 1 →
+      (p : Int) ≤ ((stepColumn ctx.cfg ctx.ascii ctx.ref ctx.query[j] last col).getD i default).origin := by
+  have hc0 : ((stepColumn ctx.cfg ctx.ascii ctx.ref ctx.query[j] last col).getD 0 default).origin
+      = ((j + 1 : Nat) : Int) := by
+    rw [stepColumn_getD_zero _ _ _ _ _ _ _ hlen]
+    unfold stepCell0
+    simp only [hsq, if_true]
+    rw [h0]; omega
+  refine ⟨hc0, ?_⟩
+  intro i
+  induction i with
+  | zero => intro _ hp; rw [hc0]; omega
+  | succ i ih =>
+    intro hil hp
+    have him : i < ctx.ref.length := by omega
+    rw [stepColumn_getD_succ _ _ _ _ _ _ _ hlen i him, if_pos hil]
+    have hfresh : j = 0 ∨ i ≤ lf := by rcases hlf with h | h; exact .inl h; right; omega
+    by_cases hon : p + i = j
+    · -- on the diagonal of the copy: a match
+      have hb : charsEqual ctx.ascii (ctx.ref.getD i 0) ctx.query[j] = true := by
+        have hq : ctx.query[j] = ctx.query.getD j 0 := by
+          rw [List.getD_eq_getElem?_getD, List.getElem?_eq_getElem hj]; rfl
+        rw [hq]
+        have := delta_zero (hX i him)
+        rw [hon] at this
+        exact this
+      rw [hb, cell_origin_match]
+      exact hZ i (by omega) hfresh (by omega)
+    · rcases cell_origin_cases ctx.cfg (charsEqual ctx.ascii (ctx.ref.getD i 0) ctx.query[j]) (col.getD i default)
+        (col.getD (i+1) default) ((stepColumn ctx.cfg ctx.ascii ctx.ref ctx.query[j] last col).getD i default)
+        with h | h | ⟨h, hlt⟩
+      · rw [h]; exact hZ i (by omega) hfresh (by omega)
+      · rw [h]; exact ih (by omega) (by omega)
+      · rw [h]
+        by_cases hfr : j = 0 ∨ i + 1 ≤ lf
+        · exact hZ (i+1) (by omega) hfr (by omega)
+        · exfalso
+          have hj0 : j ≠ 0 := fun h => hfr (.inl h)
+          have hlf' : lf < last := by omega
+          have hil' : last = i + 1 := by
+            rcases hlf with h | h
+            · exact absurd h hj0
+            · omega
+          have h1 := hdiag hj0 hlf'
+          have h2 := hcur hj0 hlf'
+          rw [hil'] at h1 h2
+          simp only [Nat.add_sub_cancel] at h1
+          omega
+
+
+/-! ### loop-level bookkeeping -/
+
+theorem shrinkLast_succ_cost (k : Nat) (col : List Entry) (l : Nat) (h : shrinkLast k col l = l + 1) :
+    (col.getD l default).cost ≤ k := by
+  cases l with
+  | zero =>
+    unfold shrinkLast at h
+    split at h
+    · omega
+    · omega
+  | succ l =>
+    unfold shrinkLast at h
+    split at h
+    · have := shrinkLast_le k col l; omega
+    · omega
+
+theorem shrinkLast_pos (k : Nat) (col : List Entry) (h : (col.getD 0 default).cost ≤ k) :
+    ∀ l, 1 ≤ shrinkLast k col l
+  | 0 => by unfold shrinkLast; rw [if_neg (by omega)]; omega
+  | l+1 => by
+    unfold shrinkLast
+    split
+    · exact shrinkLast_pos k col h l
+    · omega
+
+/-- the fields of the next state that do not depend on the best-match bookkeeping -/
+theorem columnLoop_fields (cfg : Cfg) (ascii : Bool) (refE ref : Bytes) (m : Nat) (s : LoopState) (j : Nat) (q : UInt8)
+    (hd : s.done = false) (hl1 : 1 ≤ s.last) (hlm : s.last ≤ m) :
+    (columnLoop cfg ascii refE ref m s (j, q)).col = stepColumn cfg ascii refE q s.last s.col ∧
+    (columnLoop cfg ascii refE ref m s (j, q)).lastFilled = s.last ∧
+    (columnLoop cfg ascii refE ref m s (j, q)).origin =
+      ((stepColumn cfg ascii refE q s.last s.col).getD s.last default).origin ∧
+    (((columnLoop cfg ascii refE ref m s (j, q)).last = shrinkLast cfg.k (stepColumn cfg ascii refE q s.last s.col) s.last ∧
+        shrinkLast cfg.k (stepColumn cfg ascii refE q s.last s.col) s.last < m + 1) ∨
+     ((columnLoop cfg ascii refE ref m s (j, q)).last = m ∧
+        shrinkLast cfg.k (stepColumn cfg ascii refE q s.last s.col) s.last = m + 1 ∧ s.last = m)) := by
+  rw [columnLoop_eq _ _ _ _ _ _ _ _ hd]
+  have hle := shrinkLast_le cfg.k (stepColumn cfg ascii refE q s.last s.col) s.last
+  have hge : s.last ≥ 1 := hl1
+  split
+  · next h => exact ⟨rfl, rfl, rfl, .inl ⟨rfl, h⟩⟩
+  · next h =>
+    have h1 : shrinkLast cfg.k (stepColumn cfg ascii refE q s.last s.col) s.last = m + 1 := by omega
+    have h2 : s.last = m := by omega
+    split
+    · split
+      · exact ⟨rfl, rfl, by simp only; rw [h2], .inr ⟨rfl, h1, h2⟩⟩
+      · exact ⟨rfl, rfl, by simp only; rw [h2], .inr ⟨rfl, h1, h2⟩⟩
+    · exact ⟨rfl, rfl, rfl, .inr ⟨rfl, h1, h2⟩⟩
+
+/-- origins at or right of the copy for every freshly computed cell on or above its diagonal; the stale origin -/
+structure InvZ (cfg : Cfg) (ref query : Bytes) (p j : Nat) (s : LoopState) : Prop where
+  lf : j = 0 ∨ s.last ≤ s.lastFilled + 1
+  z : ∀ i, i ≤ ref.length → (j = 0 ∨ i ≤ s.lastFilled) → p + i ≤ j → (p : Int) ≤ (s.col.getD i default).origin
+  o0 : (s.col.getD 0 default).origin = (j : Int)
+  dg : j ≠ 0 → s.lastFilled < s.last → (s.col.getD (s.last - 1) default).cost ≤ cfg.k
+  cr : j ≠ 0 → s.lastFilled < s.last → cfg.k < (s.col.getD s.last default).cost
+  last1 : 1 ≤ s.last
+  so : j ≠ 0 → s.origin = (s.col.getD s.lastFilled default).origin ∧ 1 ≤ s.lastFilled
+
+theorem columnLoop_Z {cfg : Cfg} {ref query : Bytes} (hwf : cfg.WF ref.length) {p j : Nat}
+    (hX : CopyAt (mkCtx cfg ref query) p) (hsq : cfg.startInQuery = true) (hstop : cfg.stopInQuery = true)
+    (hj : j < query.length) {s : LoopState} (h : Inv cfg ref query j s) (hu : InvU cfg ref query j s)
+    (hz : InvZ cfg ref query p j s) (hd : s.done = false) :
+    InvZ cfg ref query p (j+1) (columnLoop cfg (compareAscii cfg) (encodeRef cfg ref) ref ref.length s
+      (j+1, (encodeQuery cfg query)[j]'(by rw [encodeQuery_length]; exact hj))) := by
+  have hcol := h.col hd
+  have hmlen : (mkCtx cfg ref query).ref.length = ref.length := encodeRef_length cfg ref
+  have hj' : j < (mkCtx cfg ref query).query.length := by
+    show j < (encodeQuery cfg query).length
+    rw [encodeQuery_length]; exact hj
+  have hj0 : minNOf cfg ref.length query.length = 0 := minNOf_stopInQuery hstop _ _
+  have hstep : ColInv (mkCtx cfg ref query) (j+1) s.last (stepColumn cfg (compareAscii cfg) (encodeRef cfg ref)
+      (encodeQuery cfg query)[j] s.last s.col) := stepColumn_inv hwf.indel_pos hj' hcol
+  obtain ⟨hz0, hzi⟩ := stepColumn_Z (ctx := mkCtx cfg ref query) hX hsq (j := j) (last := s.last) (lf := s.lastFilled)
+    hcol.len hj' (by rw [hmlen]; exact h.last_le) hz.lf
+    (fun i hi => hz.z i (by rw [← hmlen]; exact hi)) hz.o0 hz.dg hz.cr
+  have hU0 : UCell (mkCtx cfg ref query) (minNOf cfg ref.length query.length) 0
+      (j - minNOf cfg ref.length query.length + 1)
+      ((stepColumn cfg (compareAscii cfg) (encodeRef cfg ref) (encodeQuery cfg query)[j] s.last s.col).getD 0 default) :=
+    stepColumn_U (ctx := mkCtx cfg ref query) (j0 := minNOf cfg ref.length query.length)
+      (t := j - minNOf cfg ref.length query.length) (by have := hu.ge; omega) hj' hcol (hu.u hd) 0 (Nat.zero_le _)
+  have hD : D (mkCtx cfg ref query) (minNOf cfg ref.length query.length) 0
+      (j - minNOf cfg ref.length query.length + 1) = 0 := D_row_startQ hsq _
+  have hz0' : ((stepColumn cfg (compareAscii cfg) (encodeRef cfg ref) (encodeQuery cfg query)[j] s.last s.col).getD 0
+      default).origin = ((j + 1 : Nat) : Int) := hz0
+  have hzi' : ∀ i, i ≤ s.last → p + i ≤ j + 1 → (p : Int) ≤
+      ((stepColumn cfg (compareAscii cfg) (encodeRef cfg ref) (encodeQuery cfg query)[j] s.last s.col).getD i
+        default).origin := hzi
+  obtain ⟨f1, f2, f3, f4⟩ := columnLoop_fields cfg (compareAscii cfg) (encodeRef cfg ref) ref ref.length s (j+1)
+    ((encodeQuery cfg query)[j]'(by rw [encodeQuery_length]; exact hj)) hd hz.last1 h.last_le
+  have hstale : ∀ i, s.last < i → i ≤ ref.length → cfg.k <
+      ((stepColumn cfg (compareAscii cfg) (encodeRef cfg ref) (encodeQuery cfg query)[j] s.last s.col).getD i
+        default).cost := fun i h1 h2 => (hstep.cells i (by rw [hmlen]; exact h2)).2.2 h1
+  generalize stepColumn cfg (compareAscii cfg) (encodeRef cfg ref) (encodeQuery cfg query)[j] s.last s.col = col'
+    at hU0 hz0' hzi' f1 f3 f4 hstale
+  have hcost0 : (col'.getD 0 default).cost ≤ cfg.k := by
+    have := hU0 (by rw [hD]; exact Nat.zero_le _)
+    rw [hD] at this
+    omega
+  have hle := shrinkLast_le cfg.k col' s.last
+  have hpos := shrinkLast_pos cfg.k col' hcost0 s.last
+  have hl1 := hz.last1
+  have hlm := h.last_le
+  refine ⟨.inr ?_, ?_, ?_, ?_, ?_, ?_, ?_⟩
+  · rw [f2]; rcases f4 with ⟨g1, g2⟩ | ⟨g1, g2, g3⟩ <;> omega
+  · intro i hi hfr hp
+    rw [f1]
+    rw [f2] at hfr
+    exact hzi' i (by omega) hp
+  · rw [f1]; exact hz0'
+  · intro _ hlt
+    rw [f1]
+    rw [f2] at hlt
+    rcases f4 with ⟨g1, g2⟩ | ⟨g1, g2, g3⟩
+    · rw [g1] at hlt ⊢
+      have e : shrinkLast cfg.k col' s.last = s.last + 1 := by omega
+      rw [e, Nat.add_sub_cancel]
+      exact shrinkLast_succ_cost _ _ _ e
+    · omega
+  · intro _ hlt
+    rw [f1]
+    rw [f2] at hlt
+    rcases f4 with ⟨g1, g2⟩ | ⟨g1, g2, g3⟩
+    · rw [g1] at hlt ⊢
+      have e : shrinkLast cfg.k col' s.last = s.last + 1 := by omega
+      rw [e]
+      exact hstale (s.last + 1) (by omega) (by omega)
+    · omega
+  · rcases f4 with ⟨g1, g2⟩ | ⟨g1, g2, g3⟩
+    · rw [g1]; exact hpos
+    · rw [g1]; omega
+  · intro _
+    rw [f1, f2, f3]
+    exact ⟨rfl, hl1⟩
+
 end Cutadapt.Align.Exact
